@@ -286,9 +286,7 @@ func (m *Manager) ReloadNamespacePrepare(namespaceConfig *models.Namespace) erro
 	newUserManager := CloneUserManager(currentUserManager)
 	newUserManager.RebuildNamespaceUsers(namespaceConfig)
 	m.users[other] = newUserManager
-	if _, ok := m.statistics.SQLResponsePercentile[name]; !ok {
-		m.statistics.SQLResponsePercentile[name] = NewSQLResponse(name)
-	}
+	m.statistics.ensureSQLResponse(name)
 	m.reloadPrepared.Set(true)
 
 	return nil
@@ -503,7 +501,7 @@ func (m *Manager) startConnectPoolMetricsTask(interval int) {
 
 	// 初始化逻辑保持不变
 	for _, ns := range m.namespaces[current].namespaces {
-		m.statistics.SQLResponsePercentile[ns.name] = NewSQLResponse(ns.name)
+		m.statistics.ensureSQLResponse(ns.name)
 	}
 
 	if interval <= 0 {
@@ -550,17 +548,37 @@ func (m *Manager) startConnectPoolMetricsTask(interval int) {
 	})
 }
 
+// ensureSQLResponse registers the per-namespace response statistics if they do not exist yet.
+func (s *StatisticManager) ensureSQLResponse(ns string) {
+	s.sqlResponseLock.Lock()
+	defer s.sqlResponseLock.Unlock()
+	if _, ok := s.SQLResponsePercentile[ns]; !ok {
+		s.SQLResponsePercentile[ns] = NewSQLResponse(ns)
+	}
+}
+
+// getSQLResponse returns the response statistics of a namespace, nil if unknown.
+func (s *StatisticManager) getSQLResponse(ns string) *SQLResponse {
+	s.sqlResponseLock.RLock()
+	defer s.sqlResponseLock.RUnlock()
+	return s.SQLResponsePercentile[ns]
+}
+
 func (s *StatisticManager) recordSQLTiming(ns string) {
-	for addr, val := range s.SQLResponsePercentile[ns].response99Max {
+	resp := s.getSQLResponse(ns)
+	if resp == nil {
+		return
+	}
+	for addr, val := range resp.response99Max {
 		s.recordBackendSQLTimingP99Max(ns, addr, val)
 	}
-	for addr, val := range s.SQLResponsePercentile[ns].response95Max {
+	for addr, val := range resp.response95Max {
 		s.recordBackendSQLTimingP95Max(ns, addr, val)
 	}
-	for addr, val := range s.SQLResponsePercentile[ns].response99Avg {
+	for addr, val := range resp.response99Avg {
 		s.recordBackendSQLTimingP99Avg(ns, addr, val)
 	}
-	for addr, val := range s.SQLResponsePercentile[ns].response95Avg {
+	for addr, val := range resp.response95Avg {
 		s.recordBackendSQLTimingP95Avg(ns, addr, val)
 	}
 
@@ -925,6 +943,7 @@ type StatisticManager struct {
 	backendSQLResponse95AvgCounts    *stats.GaugesWithMultiLabels   // 后端 SQL 耗时 P95 平均响应时间
 
 	SQLResponsePercentile map[string]*SQLResponse // 用于记录 P99/P95 Max/AVG 响应时间
+	sqlResponseLock       sync.RWMutex            // protects the SQLResponsePercentile map (reload adds entries while sessions and tickers read it)
 	slowSQLTime           int64
 	CPUNums               int // Gaea服务器使用的CPU核数
 	closeChan             chan bool
@@ -1188,7 +1207,8 @@ func (s *StatisticManager) recordBackendSQLTiming(namespace string, operation st
 	operationStatsKey := []string{s.clusterName, namespace, operation}
 	s.backendSQLTimings.Record(operationStatsKey, startTime)
 
-	if s.SQLResponsePercentile[namespace] == nil {
+	resp := s.getSQLResponse(namespace)
+	if resp == nil {
 		log.Warn("ns %s not in SQLResponsePercentile", namespace)
 		return
 	}
@@ -1199,7 +1219,7 @@ func (s *StatisticManager) recordBackendSQLTiming(namespace string, operation st
 		execTimeMicro: execTimeMicro,
 	}
 	select {
-	case s.SQLResponsePercentile[namespace].activeSQLTimeChan <- sQLExecTimeRecord:
+	case resp.activeSQLTimeChan <- sQLExecTimeRecord:
 	default:
 	}
 }
@@ -1360,7 +1380,13 @@ func (s *StatisticManager) handleCPUBusyError(statsKey []string, context string,
 }
 
 func (s *StatisticManager) CalcAvgSQLTimes() {
+	s.sqlResponseLock.RLock()
+	responses := make([]*SQLResponse, 0, len(s.SQLResponsePercentile))
 	for _, sqlResponse := range s.SQLResponsePercentile {
+		responses = append(responses, sqlResponse)
+	}
+	s.sqlResponseLock.RUnlock()
+	for _, sqlResponse := range responses {
 		allSQLTimesMicro := make([]int64, 0)
 		addrTimeMap := make(map[string][]int64)
 
